@@ -1,6 +1,6 @@
 From Coq Require Import Extraction ExtrOcamlBasic.
-From V Require Import lib.Words model.Stream spec.Contract.
+From V Require Import lib.Words model.Stream spec.Contract proofs.Roundtrip_defs.
 Extraction Language OCaml.
 Extraction "../build/ocaml/stream/model.ml"
   init_st set_parameter ensure_initialized compress_stream compress_stream_from c_reported_total c_reported_total_asfound take_output has_more_output is_finished
-  answer_ok upd_misc mon0 mon_run.
+  answer_ok answer_ok3 size_ok tail_clean carry_keptb upd_misc mon0 mon_run.
